@@ -21,7 +21,7 @@ from contracts import cache_common as cc
 from contracts import c03
 
 WRITES = ('insert', 'update', 'delete', 'delete_in_select', 'delete_in_list')
-MUTATORS = ['set', 'add', 'touch', 'incr', 'pop', '__delitem__', 'delete', 'get', '__contains__']
+MUTATORS = ['set', 'add', 'touch', 'incr', 'pop', '__delitem__', 'delete', 'get', '__contains__', 'push']
 
 
 def run(method, policy, nested, faults='base', store_outcomes=('inline', 'file', 'raise', 'raise_after_create'),
@@ -87,12 +87,17 @@ def trace_obligations(pid, method, policy, nested):
     out = []
     seen = 0
     for n, p in enumerate(paths):
-        if p.kind == 'cut':
-            continue
-        seen += 1
         st = p.state
         tr = st.trace
         tag = path_tag(policy, nested, n)
+        if pid in ('C14', 'C06', 'C08'):
+            # loop contracts met on the path (BEGIN retry loop: nothing changes while waiting for the lock)
+            for o in st.obligations:
+                out.append(discharge('%s.%s%s/%s' % (pid, method, tag, o.name), o.kind, o.pc, o.goal,
+                                     function='Cache._transact', path=p.decisions))
+        if p.kind == 'cut':
+            continue
+        seen += 1
         sq = sql_effects(tr)
         writes = [(i, e) for i, e in sq if is_write(e)]
         begins = [i for i, e in enumerate(tr) if e[0] == 'BEGIN']
